@@ -310,10 +310,21 @@ func c03(r *h.Result, rng *h.Rng, tier string, replay string) error {
 		"(shared identities, names needing sanitising, values around the 100-byte cut, __ttl_days__ labels, 10% with a TTL header), " +
 		"timestamps on three days incl. midnight ±1 ns, empty streams; JSON with shuffled member order, both Loki layouts, integer and RFC 3339 " +
 		"timestamps, optional third element; plus per protocol documents crossing 1 MiB (Loki: byte count exactly at the threshold and one above) " +
-		"and, for remote write, the 1000-point limit before/on/after series boundaries; non-trivial = ≥ 2 streams or ≥ 2 chunks; distinct by body hash"
+		"and, for remote write, the 1000-point limit before/on/after series boundaries; non-trivial = ≥ 2 streams or ≥ 2 chunks; distinct by body hash. " +
+		"Decoder streams (<proto>-wire, 150 bodies per protocol, thorough 3000): RAW bytes written by the generator — members of every JSON object shuffled, " +
+		"0–3 label sources (`stream` objects, `labels` texts) and 0–3 entry sources (`values`, `entries`) per Loki stream object, repeated `streams`/`series`/`ts`/`line`/`value`/" +
+		"`metric`/`points`/`ddtags`/… members, \\uXXXX (surrogate pairs) and short escapes in keys and values, number spellings (exponents, > 2^63, 1e309, -0, 38 digits), " +
+		"timestamps as decimal strings (+, leading zeros, int64 bounds) or RFC 3339 with every offset up to ±24:60, 0–12 fractional digits, ',' or '.', one-digit hours, " +
+		"value arrays of 0–5 elements with non-number third elements, Datadog bodies as array or single object, points without timestamp/value, Influx fields of all five kinds " +
+		"(message of every kind, escaped keys, ints beyond 2^53, uint64 max), OTLP bodies/attributes of every AnyValue kind nested 3 deep with colliding sanitised keys; " +
+		"15% of the bodies carry one or more ill-formed parts on purpose (wrong JSON kinds, bad times, `{}` label text, non-JSON numbers); " +
+		"the intermediate value is produced by the same third-party library on the same bytes (c03wire.go)"
 	if replay != "" {
 		raw, err := os.ReadFile(replay)
 		if err != nil {
+			return err
+		}
+		if done, err := c03wReplay(r, raw); done {
 			return err
 		}
 		var f struct {
@@ -405,6 +416,9 @@ func c03(r *h.Result, rng *h.Rng, tier string, replay string) error {
 		if err := b.flush(r); err != nil {
 			return err
 		}
+	}
+	if err := c03wStreams(r, rng.Fork(), tier); err != nil {
+		return err
 	}
 	r.Sample(map[string]any{"stream": "loki", "body": `{"streams":[{"stream":{"a":"b"},"values":[]},{"stream":{"c":"d"},"values":[["1700000000000000000","x",1.5]]}]}`,
 		"rows": "one row: fingerprint of {c=d}, ts 1700000000000000000, line x, value 1.5, type 0 (both)"})
